@@ -123,6 +123,44 @@ func c33(x *Ctx) {
 		c.Hold(r1b, "MultiMetrics/recording-methods", "metrics/multi_metrics.go", sprintf("%d value writes, all on cells taken from the map", nW))
 	}
 
+	// ---- clause 1d: registering a metric records nothing -----------------------------------------------------------
+	// (Register is called again for live metrics – per worker, per sampler, on every reload; it may create a cell
+	// but must not write a value into a cell that may already be in use, directly or through a recording method)
+	const r1d = "C33.register-records-nothing"
+	if reg := x.Fn(r1d, "metrics", "MultiMetrics", "Register"); reg != nil {
+		var bad ssa.Instruction
+		via := ""
+		seenF := map[*ssa.Function]bool{}
+		var visit func(f *ssa.Function, depth int, path string)
+		visit = func(f *ssa.Function, depth int, path string) {
+			if seenF[f] || depth > 3 {
+				return
+			}
+			seenF[f] = true
+			eng.Instrs(f, func(in ssa.Instruction) {
+				if cl, ok := isAtomicWrite(in); ok {
+					if _, fresh := eng.Receiver(cl).(*ssa.Alloc); !fresh && bad == nil {
+						bad, via = in, path
+					}
+					return
+				}
+				if cl, ok := in.(*ssa.Call); ok {
+					if cal := cl.Call.StaticCallee(); cal != nil && len(cal.Blocks) > 0 && cal.Signature.Recv() != nil && strings.Contains(cal.Signature.Recv().Type().String(), "MultiMetrics") {
+						visit(cal, depth+1, path+" → "+BaseName(cal))
+					}
+				}
+			})
+		}
+		visit(reg, 0, "Register")
+		c.Examined += len(seenF)
+		if bad != nil {
+			c.Violate(r1d, "Register/"+eng.MethodBase(eng.CalleeName(bad.(ssa.CallInstruction))), x.Pos(bad), "registration writes a value into a metric cell that may already be live ("+via+"): every repeated registration (per worker, per sampler instance, on each reload) resets or alters what was recorded")
+		} else {
+			c.Hold(r1d, "Register", x.PosOf(reg.Pos()), "registration only creates absent cells; no value is written to a cell taken from the maps")
+		}
+	}
+	c.Min(r1d, 1)
+
 	// ---- clause 1c: up/down values are kept signed ------------------------------------------------------------------
 	const r1c = "C33.updown-signed"
 	updF := eng.FieldIs("metrics", "MultiMetrics", "updowns")
